@@ -9,15 +9,29 @@
 // Every delivered message carries a unique serial inside its payload, so an invocation is
 // attributed to exactly one delivery by the data it was handed.
 //
-// All replies and results carry a msgCounterReference: without one DatagramType.PrintMessageOverview
-// dereferences nil inside ProcessCmd (a separate known defect outside this property), so the
-// "missing reference" shape of DESIGN §4 is not generated.
+// Missing references: a reply or result without msgCounterReference that comes in through the SHIP
+// reader never reaches a feature (DatagramType.PrintMessageOverview dereferences the absent element
+// inside ProcessCmd; HandleSpineMesssage recovers and drops the message - C05's subject). The way
+// a feature receives such a message is its exported HandleMessage, so a share of the deliveries is
+// handed to FeatureLocal.HandleMessage directly (the api.Message built exactly as ProcessCmd builds it
+// from the decoded datagram), with and without a reference; a message without reference references
+// no request and no counter: no callback of either kind may run for it.
+//
+// Registrations from inside a callback: some callbacks, when they are invoked (the first time),
+// register a follow-up callback (response callback for a further counter or a further result
+// callback) on a local feature, mostly their own; the follow-up is a registration concurrent with the
+// arrival that triggered it, so every outcome a linearisation allows is accepted for the messages of
+// that step, and from then on it is an ordinary registration (served by later deliveries / the final
+// flush). Every delivery runs under a watchdog (world.AwaitOrDiagnose): handling that never returns is
+// reported with the lock evidence, a merely slow machine is not.
 package c14
 
 import (
+	"encoding/json"
 	"fmt"
 	"reflect"
 	"runtime"
+	"runtime/debug"
 	"sort"
 	"strings"
 	"sync"
@@ -47,9 +61,42 @@ type invocation struct {
 	remote api.FeatureRemoteInterface
 }
 
+// chainExec is one follow-up registration performed from inside a callback.
+type chainExec struct {
+	child    int // registration id of the follow-up
+	finished bool
+	err      error
+}
+
 type callLog struct {
-	mu    sync.Mutex
-	calls []invocation
+	mu     sync.Mutex
+	calls  []invocation
+	chains []*chainExec
+}
+
+func (l *callLog) chainStart(child int) *chainExec {
+	e := &chainExec{child: child}
+	l.mu.Lock()
+	l.chains = append(l.chains, e)
+	l.mu.Unlock()
+	return e
+}
+
+func (l *callLog) chainDone(e *chainExec, err error) {
+	l.mu.Lock()
+	e.finished, e.err = true, err
+	l.mu.Unlock()
+}
+
+// chainsFrom returns copies of the follow-up registrations logged from position from on.
+func (l *callLog) chainsFrom(from int) []chainExec {
+	l.mu.Lock()
+	defer l.mu.Unlock()
+	var out []chainExec
+	for _, e := range l.chains[from:] {
+		out = append(out, *e)
+	}
+	return out
 }
 
 func (l *callLog) add(reg, site int, m api.ResponseMessage) {
@@ -65,18 +112,39 @@ func (l *callLog) snapshot() []invocation {
 	return append([]invocation(nil), l.calls...)
 }
 
-var sites = []func(l *callLog, reg int) func(api.ResponseMessage){
-	func(l *callLog, reg int) func(api.ResponseMessage) {
-		return func(m api.ResponseMessage) { l.add(reg, 0, m) }
+// then (may be nil) is what the application does inside the callback after it has looked at the message.
+var sites = []func(l *callLog, reg int, then func()) func(api.ResponseMessage){
+	func(l *callLog, reg int, then func()) func(api.ResponseMessage) {
+		return func(m api.ResponseMessage) {
+			l.add(reg, 0, m)
+			if then != nil {
+				then()
+			}
+		}
 	},
-	func(l *callLog, reg int) func(api.ResponseMessage) {
-		return func(m api.ResponseMessage) { l.add(reg, 1, m) }
+	func(l *callLog, reg int, then func()) func(api.ResponseMessage) {
+		return func(m api.ResponseMessage) {
+			l.add(reg, 1, m)
+			if then != nil {
+				then()
+			}
+		}
 	},
-	func(l *callLog, reg int) func(api.ResponseMessage) {
-		return func(m api.ResponseMessage) { l.add(reg, 2, m) }
+	func(l *callLog, reg int, then func()) func(api.ResponseMessage) {
+		return func(m api.ResponseMessage) {
+			l.add(reg, 2, m)
+			if then != nil {
+				then()
+			}
+		}
 	},
-	func(l *callLog, reg int) func(api.ResponseMessage) {
-		return func(m api.ResponseMessage) { l.add(reg, 3, m) }
+	func(l *callLog, reg int, then func()) func(api.ResponseMessage) {
+		return func(m api.ResponseMessage) {
+			l.add(reg, 3, m)
+			if then != nil {
+				then()
+			}
+		}
 	},
 }
 
@@ -85,12 +153,12 @@ var sites = []func(l *callLog, reg int) func(api.ResponseMessage){
 func TestSites(t *testing.T) {
 	l := &callLog{}
 	for i := range sites {
-		a, b := sites[i](l, 1), sites[i](l, 2)
+		a, b := sites[i](l, 1, nil), sites[i](l, 2, func() {})
 		if reflect.ValueOf(a).Pointer() != reflect.ValueOf(b).Pointer() {
 			t.Fatalf("harness: two closures of site %d have different code pointers", i)
 		}
 		for j := i + 1; j < len(sites); j++ {
-			if reflect.ValueOf(a).Pointer() == reflect.ValueOf(sites[j](l, 3)).Pointer() {
+			if reflect.ValueOf(a).Pointer() == reflect.ValueOf(sites[j](l, 3, nil)).Pointer() {
 				t.Fatalf("harness: sites %d and %d share a code pointer", i, j)
 			}
 		}
@@ -197,13 +265,33 @@ type reg struct {
 	refused  bool   // the registration returned an error: the closure must never run
 	consumed bool
 	want     []int // serials of the deliveries that have to have invoked it
+
+	chained bool // a follow-up: registered from inside the callback of registration parent
+	parent  int
+	unreg   bool // (follow-ups) the registering callback has not run: not registered
+	then    *reg // the follow-up this callback registers when it is invoked for the first time
 }
 
 func (r *reg) String() string {
-	if r.result {
-		return fmt.Sprintf("result callback #%d (site %d) on feature %d", r.id, r.site, r.feat)
+	from := ""
+	if r.chained {
+		from = fmt.Sprintf(", registered from inside callback #%d", r.parent)
 	}
-	return fmt.Sprintf("response callback #%d (site %d) on feature %d for counter %d", r.id, r.site, r.feat, r.counter)
+	if r.result {
+		return fmt.Sprintf("result callback #%d (site %d) on feature %d%s", r.id, r.site, r.feat, from)
+	}
+	return fmt.Sprintf("response callback #%d (site %d) on feature %d for counter %d%s", r.id, r.site, r.feat, r.counter, from)
+}
+
+// suffix marks the signatures of registrations whose time of effect is not fixed by the history.
+func (r *reg) suffix() string {
+	switch {
+	case r.chained:
+		return "-from-callback"
+	case r.conc:
+		return "-concurrent"
+	}
+	return ""
 }
 
 const (
@@ -225,6 +313,8 @@ type spec struct {
 	items          int
 	filter         string // replies: "" | "partial" (restricted function exchange: the cmd carries function and filter)
 	bare           bool   // error results: no description element (it is optional); the error number identifies the message
+	noRef          bool   // the header carries no msgCounterReference (ref is not used)
+	direct         bool   // handed to the local feature's HandleMessage instead of the SHIP reader
 }
 
 func (s spec) isResult() bool { return s.kind == kResult0 || s.kind == kResultE }
@@ -244,7 +334,15 @@ func (s spec) String() string {
 	if s.filter != "" {
 		what += "," + s.filter
 	}
-	return fmt.Sprintf("%s(%s) peer%d/feature%d -> local feature %d ref=%d ack=%v", s.kind, what, s.peer, s.src, s.dst, s.ref, s.ack)
+	ref := fmt.Sprintf("ref=%d", s.ref)
+	if s.noRef {
+		ref = "no reference"
+	}
+	via := ""
+	if s.direct {
+		via = " via HandleMessage"
+	}
+	return fmt.Sprintf("%s(%s) peer%d/feature%d -> local feature %d %s ack=%v%s", s.kind, what, s.peer, s.src, s.dst, ref, s.ack, via)
 }
 
 type delivery struct {
@@ -275,6 +373,12 @@ type machine struct {
 	counters  map[uint64]bool
 	dels      []*delivery
 	byData    map[string]*delivery
+	chainsAt  int              // follow-up registrations of the log that are booked already
+	planned   map[keySite]bool // response follow-ups that are planned and not yet registered
+
+	base   int         // goroutines alive when nothing is going on
+	abort  atomic.Bool // a wedge was diagnosed: helper goroutines that still poll give up
+	inConc bool
 
 	ops        []string // abstract history (distinctness key, samples)
 	nontrivial bool
@@ -306,6 +410,7 @@ func newMachine(defs []featDef) *machine {
 		w: world.New(), defs: defs, log: &callLog{},
 		pending: map[key][]*reg{}, consumed: map[key]bool{}, siteEver: map[keySite]bool{},
 		resultCBs: map[int][]*reg{}, counters: map[uint64]bool{}, byData: map[string]*delivery{},
+		planned: map[keySite]bool{},
 	}
 	le := m.w.AddLocalEntity([]uint{1}, model.EntityTypeTypeCEM, time.Second)
 	var remote []world.FeatSpec
@@ -318,6 +423,8 @@ func newMachine(defs []featDef) *machine {
 		ents := []world.EntSpec{{Addr: []uint{1}, Type: model.EntityTypeTypeEVSE, Feats: remote}}
 		m.peers = append(m.peers, m.w.AddPeer(fmt.Sprintf("ski%d", i+1), fmt.Sprintf("d:_r:peer%d", i+1), ents))
 	}
+	m.w.Sync()
+	m.base = runtime.NumGoroutine()
 	return m
 }
 
@@ -368,20 +475,80 @@ func (m *machine) settle(t world.TB, r *reg, err error, dup bool) {
 	m.counters[r.counter] = true
 }
 
-func (m *machine) register(t world.TB, feat int, counter uint64, site int) {
+// followUp is the plan of a registration a callback makes from inside its (first) invocation.
+type followUp struct {
+	result  bool
+	feat    int
+	counter uint64 // response callbacks
+	site    int
+}
+
+func (f *followUp) String() string {
+	if f == nil {
+		return ""
+	}
+	if f.result {
+		return fmt.Sprintf(", which registers result callback site %d on feature %d when it is invoked", f.site, f.feat)
+	}
+	return fmt.Sprintf(", which registers response callback site %d on feature %d counter %d when it is invoked", f.site, f.feat, f.counter)
+}
+
+// callback builds the closure of registration r. With a follow-up plan the closure, the first time it
+// is invoked, registers the follow-up callback from inside the invocation (as an application does that
+// sends the next request when the answer to the previous one arrives).
+func (m *machine) callback(r *reg, fu *followUp) func(api.ResponseMessage) {
+	if fu == nil {
+		return sites[r.site](m.log, r.id, nil)
+	}
+	c := m.newReg(fu.site, fu.feat, fu.counter, fu.result, false)
+	c.chained, c.parent, c.unreg = true, r.id, true
+	r.then = c
+	if !c.result {
+		m.planned[keySite{key{c.feat, c.counter}, c.site}] = true
+	}
+	world.Label("register/with-follow-up")
+	fn := sites[c.site](m.log, c.id, nil)
+	feat, log, child, result, counter := m.feats[c.feat], m.log, c.id, c.result, model.MsgCounterType(c.counter)
+	var fired atomic.Bool
+	return sites[r.site](m.log, r.id, func() {
+		if !fired.CompareAndSwap(false, true) {
+			return
+		}
+		e := log.chainStart(child)
+		var err error
+		if result {
+			feat.AddResultCallback(fn)
+		} else {
+			err = feat.AddResponseCallback(counter, fn)
+		}
+		log.chainDone(e, err)
+	})
+}
+
+// unplan: the callback that was to register r.then will never run.
+func (m *machine) unplan(r *reg) {
+	if c := r.then; c != nil && !c.result {
+		delete(m.planned, keySite{key{c.feat, c.counter}, c.site})
+	}
+}
+
+func (m *machine) register(t world.TB, feat int, counter uint64, site int, fu *followUp) {
 	k := key{feat, counter}
 	dup := m.pendingSite(k, site)
 	r := m.newReg(site, feat, counter, false, false)
-	err := m.feats[feat].AddResponseCallback(model.MsgCounterType(counter), sites[site](m.log, r.id))
-	m.ops = append(m.ops, fmt.Sprintf("register response callback site %d on feature %d counter %d (duplicate=%v)", site, feat, counter, dup))
+	err := m.feats[feat].AddResponseCallback(model.MsgCounterType(counter), m.callback(r, fu))
+	m.ops = append(m.ops, fmt.Sprintf("register response callback site %d on feature %d counter %d (duplicate=%v)%v", site, feat, counter, dup, fu))
 	m.settle(t, r, err, dup)
+	if r.refused {
+		m.unplan(r)
+	}
 }
 
-func (m *machine) registerResult(feat, site int) {
+func (m *machine) registerResult(feat, site int, fu *followUp) {
 	r := m.newReg(site, feat, 0, true, false)
-	m.feats[feat].AddResultCallback(sites[site](m.log, r.id))
+	m.feats[feat].AddResultCallback(m.callback(r, fu))
 	m.resultCBs[feat] = append(m.resultCBs[feat], r)
-	m.ops = append(m.ops, fmt.Sprintf("register result callback site %d on feature %d", site, feat))
+	m.ops = append(m.ops, fmt.Sprintf("register result callback site %d on feature %d%v", site, feat, fu))
 	world.Label("register/result-callback")
 }
 
@@ -422,19 +589,52 @@ func (m *machine) build(t world.TB, s spec) (*delivery, model.DatagramType) {
 	}
 	m.dels = append(m.dels, d)
 	m.byData[d.data] = d
-	ref := model.MsgCounterType(s.ref)
-	return d, p.Msg(cl, src, dst, s.ack, &ref, cmd)
+	var ref *model.MsgCounterType
+	if !s.noRef {
+		ref = util.Ptr(model.MsgCounterType(s.ref))
+	}
+	return d, p.Msg(cl, src, dst, s.ack, ref, cmd)
+}
+
+// handle hands the message to the local feature's HandleMessage, built the way ProcessCmd builds it
+// from the datagram as it comes off the wire. Whether the feature took it is HandleMessage's return value.
+func (m *machine) handle(d *delivery, dg model.DatagramType) {
+	var wire model.Datagram
+	if err := json.Unmarshal(world.Encode(dg), &wire); err != nil {
+		panic(fmt.Sprintf("harness: datagram does not decode: %v", err))
+	}
+	p := m.peers[d.peer]
+	h := wire.Datagram
+	cmd := h.Payload.Cmd[0]
+	filterPartial, filterDelete := cmd.ExtractFilter()
+	msg := &api.Message{
+		RequestHeader: &h.Header,
+		CmdClassifier: *h.Header.CmdClassifier,
+		Cmd:           cmd,
+		FilterPartial: filterPartial,
+		FilterDelete:  filterDelete,
+		FeatureRemote: d.remote,
+		EntityRemote:  p.Dev.Entity(h.Header.AddressSource.Entity),
+		DeviceRemote:  p.Dev,
+	}
+	d.accepted = m.feats[d.dst].HandleMessage(msg) == nil
 }
 
 // inject sends the datagram and observes whether the stack rejected it (an error result
 // referencing it is written synchronously, before the reader returns).
 func (m *machine) inject(d *delivery, dg model.DatagramType) {
 	p := m.peers[d.peer]
-	p.Send(dg)
-	d.accepted = d.dst >= 0
-	for _, s := range p.Cap.Drain() {
-		if s.Ref() != nil && *s.Ref() == *dg.Header.MsgCounter && s.ErrorNumber() > 0 {
-			d.accepted = false
+	if d.direct && d.dst >= 0 {
+		m.handle(d, dg)
+		p.Cap.Drain()
+		world.Label("deliver/via-HandleMessage")
+	} else {
+		p.Send(dg)
+		d.accepted = d.dst >= 0
+		for _, s := range p.Cap.Drain() {
+			if s.Ref() != nil && *s.Ref() == *dg.Header.MsgCounter && s.ErrorNumber() > 0 {
+				d.accepted = false
+			}
 		}
 	}
 	if d.dst >= 0 && d.accepted != (d.kind != kRejected) {
@@ -447,6 +647,23 @@ func (m *machine) inject(d *delivery, dg model.DatagramType) {
 
 // apply books a delivery against everything that was registered before it.
 func (m *machine) apply(d *delivery) {
+	if d.noRef {
+		// references no request and no counter: nothing may be invoked for it (check: every invocation
+		// carries the serial of its message, and this one is in nobody's list)
+		via, had := "ship-reader", "without"
+		if d.direct && d.dst >= 0 {
+			via = "HandleMessage"
+		}
+		if d.dst >= 0 && d.isResult() && len(m.resultCBs[d.dst]) > 0 {
+			had = "with"
+			if via == "HandleMessage" {
+				m.nontrivial = true
+			}
+		}
+		world.Label("deliver/no-reference", "deliver/no-reference/"+d.shape()+"-via-"+via+"-feature-"+had+"-result-callbacks", "kind/"+d.kind)
+		m.ops = append(m.ops, fmt.Sprintf("deliver %v [no-reference]", d.spec))
+		return
+	}
 	k := key{d.dst, d.ref}
 	matching := len(m.pending[k]) > 0
 	repeated := !matching && m.consumed[k]
@@ -500,14 +717,111 @@ func (m *machine) apply(d *delivery) {
 
 func (m *machine) deliver(t world.TB, s spec) {
 	d, dg := m.build(t, s)
-	m.inject(d, dg)
-	m.w.Sync()
-	if d.kind == kReply && d.dst >= 0 && !d.accepted && len(m.pending[key{d.dst, d.ref}]) > 0 {
+	m.run(t, []*delivery{d}, func() { m.inject(d, dg) })
+	m.sync(t, []*delivery{d})
+	if d.kind == kReply && d.dst >= 0 && !d.noRef && !d.accepted && len(m.pending[key{d.dst, d.ref}]) > 0 {
 		// the reply carries data of a function of the announced feature that sent it, goes to an existing
 		// local feature and a callback is waiting for it there: refusing it leaves that callback waiting for ever
 		world.Fail(t, "C14/valid-reply-refused/"+string(m.defs[d.dst].role), "%s was refused with an error result although it is the answer the callbacks %v are waiting for", m.describe(d), m.pending[key{d.dst, d.ref}])
 	}
 	m.apply(d)
+	m.place(t, []*delivery{d}, nil)
+}
+
+// patience of the watchdog before it starts to look at the goroutines; a verdict needs two identical
+// dumps 3 s apart with goroutines parked in spine-go locks and none inside spine-go able to run, so the
+// value only decides how soon a wedge is looked at, never whether a slow machine is blamed.
+const patience = 3 * time.Second
+
+// run executes the bodies (deliveries, registrations) in goroutines of their own and waits for them
+// under the watchdog: if the stack never comes back from handling an arrival, no callback that waits
+// for a later message of that feature can ever be invoked - reported with the lock evidence.
+func (m *machine) run(t world.TB, dels []*delivery, bodies ...func()) {
+	panics := make([]string, len(bodies))
+	var wg sync.WaitGroup
+	for i, b := range bodies {
+		wg.Add(1)
+		go func(i int, b func()) {
+			defer wg.Done()
+			defer func() {
+				if r := recover(); r != nil {
+					panics[i] = fmt.Sprintf("%v\n%s", r, debug.Stack())
+				}
+			}()
+			b()
+		}(i, b)
+	}
+	done := make(chan struct{})
+	go func() { wg.Wait(); close(done) }()
+	where, detail, inconclusive := world.AwaitOrDiagnose(done, patience, 5*time.Minute, 1)
+	if where != "" || inconclusive {
+		m.abort.Store(true)
+		if where != "" {
+			world.Fail(t, "C14/arrival/deadlock/"+where, "handling of %v does not return%s; registrations that callbacks are making from inside their invocation: %v; the stack did %s", m.describeAll(dels), m.concNote(), m.openFollowUps(), detail)
+		}
+		t.Fatalf("inconclusive: handling of %v was not through after 5 minutes, without evidence of a lock cycle\n%s", m.describeAll(dels), detail)
+	}
+	for _, p := range panics {
+		if p == "" {
+			continue
+		}
+		sig := world.PanicSignature(p)
+		if sig == "" {
+			panic("harness: a delivery goroutine panicked outside the stack: " + p)
+		}
+		world.Fail(t, "C14/"+sig, "panic while %v was handled: %s", m.describeAll(dels), p)
+	}
+}
+
+// sync is the goroutine barrier after the arrivals dels: every callback the stack started has run to
+// its end. Callbacks that never end (parked in a lock of the stack for good) are reported with the
+// evidence; without such evidence the wait is merely slow.
+func (m *machine) sync(t world.TB, dels []*delivery) {
+	if m.w.SyncQuiet(10 * time.Second) {
+		return
+	}
+	done := make(chan struct{})
+	go func() { // counts itself
+		for !world.WaitGoroutines(m.base+1, time.Second) {
+			if m.abort.Load() {
+				return
+			}
+		}
+		close(done)
+	}()
+	where, detail, inconclusive := world.AwaitOrDiagnose(done, patience, 5*time.Minute, 1)
+	if where != "" || inconclusive {
+		m.abort.Store(true)
+		if where != "" {
+			world.Fail(t, "C14/callback/deadlock/"+where, "after %v%s the goroutines the stack started do not end; registrations that callbacks are making from inside their invocation: %v; the stack did %s", m.describeAll(dels), m.concNote(), m.openFollowUps(), detail)
+		}
+		t.Fatalf("inconclusive: the goroutines started for %v were not through after 5 minutes, without evidence of a lock cycle\n%s", m.describeAll(dels), detail)
+	}
+}
+
+func (m *machine) openFollowUps() []string {
+	var open []string
+	for _, e := range m.log.chainsFrom(0) {
+		if !e.finished {
+			open = append(open, fmt.Sprintf("%v (called, not returned)", m.regs[e.child]))
+		}
+	}
+	return open
+}
+
+func (m *machine) describeAll(dels []*delivery) []string {
+	var out []string
+	for _, d := range dels {
+		out = append(out, m.describe(d))
+	}
+	return out
+}
+
+func (m *machine) concNote() string {
+	if m.inConc {
+		return " (messages sent while a second goroutine registers callbacks)"
+	}
+	return ""
 }
 
 func (m *machine) describe(d *delivery) string {
@@ -526,10 +840,7 @@ func (m *machine) check(t world.TB) {
 		for _, s := range r.want {
 			want[s]++
 		}
-		suffix := ""
-		if r.conc {
-			suffix = "-concurrent"
-		}
+		suffix := r.suffix()
 		for _, inv := range byReg[r.id] {
 			d := m.byData[inv.data]
 			if d == nil {
@@ -552,6 +863,12 @@ func (m *machine) check(t world.TB) {
 			switch {
 			case r.refused:
 				world.Fail(t, "C14/refused-registration/invoked", "%v was refused at registration but invoked for %s", r, m.describe(d))
+			case r.unreg:
+				world.Fail(t, "C14/never-registered/invoked", "%v was invoked for %s although the callback that registers it has not run", r, m.describe(d))
+			case d.noRef && r.result && d.isResult() && d.dst == r.feat:
+				world.Fail(t, "C14/result-callback/invoked-for-result-without-reference", "%v was invoked for %s, which references no request", r, m.describe(d))
+			case d.noRef:
+				world.Fail(t, "C14/missing-reference/"+d.shape()+suffix, "%v was invoked for %s, which carries no reference at all", r, m.describe(d))
 			case d.dst != r.feat && r.result:
 				world.Fail(t, "C14/result-callback/other-feature", "%v was invoked for %s, which went to another feature", r, m.describe(d))
 			case d.dst != r.feat:
@@ -608,7 +925,7 @@ type concReg struct {
 	err  error
 }
 
-// concurrent lets a second goroutine perform regs (in order) while this goroutine sends specs
+// concurrent lets a second goroutine perform regs (in order) while a first one sends specs
 // (in order); afterwards every outcome a linearisation allows is accepted, anything else fails.
 // The keys of the response registrations are not pending with the same site when the step starts
 // and pairwise distinct, so none of them may be refused as a duplicate.
@@ -622,23 +939,23 @@ func (m *machine) concurrent(t world.TB, specs []spec, cregs []*concReg) {
 	var progress atomic.Int32 // number of the delivery that is being sent; the second goroutine polls it
 	progress.Store(-1)
 	for _, c := range cregs {
-		c.fn = sites[c.r.site](m.log, c.r.id)
+		c.fn = sites[c.r.site](m.log, c.r.id, nil)
 		what := fmt.Sprintf("response callback site %d feature %d counter %d", c.r.site, c.r.feat, c.r.counter)
 		if c.r.result {
 			what = fmt.Sprintf("result callback site %d feature %d", c.r.site, c.r.feat)
 		}
 		m.ops = append(m.ops, fmt.Sprintf("concurrently (from delivery %d of %d on) register %s", c.trig, n, what))
 	}
-	var wg sync.WaitGroup
-	wg.Add(1)
 	var ready atomic.Bool
-	go func() {
-		defer wg.Done()
+	registrar := func() {
 		ready.Store(true)
 		for _, c := range cregs {
 			for i := 0; int(progress.Load()) < c.trig; i++ {
 				if i%1024 == 1023 {
 					runtime.Gosched()
+					if m.abort.Load() {
+						return
+					}
 				}
 			}
 			for i := 0; i < c.spin; i++ {
@@ -650,24 +967,68 @@ func (m *machine) concurrent(t world.TB, specs []spec, cregs []*concReg) {
 				c.err = m.feats[c.r.feat].AddResponseCallback(model.MsgCounterType(c.r.counter), c.fn)
 			}
 		}
-	}()
-	for !ready.Load() { // the second goroutine is on a processor and polling
-		runtime.Gosched()
 	}
-	for j := range specs {
-		progress.Store(int32(j))
-		m.inject(dels[j], dgs[j])
+	sender := func() {
+		for !ready.Load() { // the second goroutine is on a processor and polling
+			runtime.Gosched()
+		}
+		for j := range specs {
+			progress.Store(int32(j))
+			m.inject(dels[j], dgs[j])
+		}
+		progress.Store(int32(n))
 	}
-	progress.Store(int32(n))
-	wg.Wait()
-	m.w.Sync()
+	m.inConc = true
+	m.run(t, dels, registrar, sender)
+	m.sync(t, dels)
+	m.inConc = false
 
 	// registrations made before the step follow the sequential model
 	for _, d := range dels {
 		m.apply(d)
 	}
+	m.place(t, dels, cregs)
+}
 
-	// the concurrent ones: find the point of the delivery sequence at which each took effect
+// place books the registrations that were made while the messages dels arrived: the ones of the
+// second goroutine (cregs, made one after the other) and the follow-ups registered from inside
+// callbacks that ran during the step (each by a goroutine of its own, at any time after the arrival
+// that invoked its callback). For each it finds the point of the delivery sequence at which it took
+// effect; every outcome a linearisation allows is accepted.
+func (m *machine) place(t world.TB, dels []*delivery, cregs []*concReg) {
+	n := len(dels)
+	all := append([]*concReg(nil), cregs...)
+	unordered := map[*concReg]bool{}
+	for _, e := range m.log.chainsFrom(m.chainsAt) {
+		m.chainsAt++
+		r := m.regs[e.child]
+		if !e.finished {
+			// the goroutine barrier has been passed, so whoever ran the callback is through
+			t.Fatalf("harness: the registration of %v from inside its callback has not returned although no goroutine of the stack is alive", r)
+		}
+		r.unreg = false
+		if !r.result {
+			delete(m.planned, keySite{key{r.feat, r.counter}, r.site})
+		}
+		c := &concReg{r: r, trig: -1, err: e.err}
+		all = append(all, c)
+		unordered[c] = true
+		same := "same"
+		if m.regs[r.parent].feat != r.feat {
+			same = "other"
+		}
+		kind := "response"
+		if r.result {
+			kind = "result"
+		}
+		world.Label("follow-up/registered", fmt.Sprintf("follow-up/%s-callback-on-%s-feature-from-%s", kind, same, map[bool]string{true: "result-callback", false: "response-callback"}[m.regs[r.parent].result]))
+		m.ops = append(m.ops, fmt.Sprintf("callback #%d ran and registered %v (error: %v)", r.parent, r, e.err))
+		m.nontrivial = true
+	}
+	if len(all) == 0 {
+		return
+	}
+
 	index := map[int]int{} // serial -> position in this step
 	for j, d := range dels {
 		index[d.serial] = j
@@ -688,14 +1049,18 @@ func (m *machine) concurrent(t world.TB, specs []spec, cregs []*concReg) {
 	// look-ups e-1 and e. The registrations of the second goroutine happen one after the other, so
 	// their slots must not decrease; what was (not) invoked bounds each slot from both sides.
 	cur, curBy := 0, (*reg)(nil)
-	for _, c := range cregs {
+	for _, c := range all {
 		r := c.r
+		lab, suffix := "concurrent", r.suffix()
+		if unordered[c] {
+			lab = "follow-up"
+		}
 		if foreign[r.id] {
 			continue // invoked with something that is no message of this step: check reports it
 		}
 		var cand []int // deliveries of the step that have to invoke r if it is registered in time
 		for j, d := range dels {
-			if d.dst != r.feat || !d.accepted {
+			if d.dst != r.feat || !d.accepted || d.noRef {
 				continue
 			}
 			if (r.result && d.isResult()) || (!r.result && d.ref == r.counter) {
@@ -725,7 +1090,7 @@ func (m *machine) concurrent(t world.TB, specs []spec, cregs []*concReg) {
 			s := len(cand) - len(served)
 			for i, j := range served {
 				if cand[s+i] != j {
-					world.Fail(t, "C14/result-callback/not-invoked-concurrent", "%v, registered while messages arrived, was invoked for %s but not for the later %s", r, m.describe(dels[served[0]]), m.describe(dels[cand[len(cand)-1]]))
+					world.Fail(t, "C14/result-callback/not-invoked"+suffix, "%v, registered while messages arrived, was invoked for %s but not for the later %s", r, m.describe(dels[served[0]]), m.describe(dels[cand[len(cand)-1]]))
 				}
 			}
 			if s > 0 {
@@ -734,15 +1099,21 @@ func (m *machine) concurrent(t world.TB, specs []spec, cregs []*concReg) {
 			if s < len(cand) {
 				hi = 2*cand[s] + 1
 			}
-			world.Label(fmt.Sprintf("concurrent/result-callback-served-%d-of-%d", len(served), len(cand)))
+			world.Label(fmt.Sprintf("%s/result-callback-served-%d-of-%d", lab, len(served), len(cand)))
 		} else {
 			k := key{r.feat, r.counter}
 			if c.err != nil {
 				if !m.siteEver[keySite{k, r.site}] {
-					world.Fail(t, "C14/registration-refused/fresh-concurrent", "%v was refused (%v) although this callback is not registered for that counter", r, c.err)
+					world.Fail(t, "C14/registration-refused/fresh"+suffix, "%v was refused (%v) although this callback is not registered for that counter", r, c.err)
 				}
 				r.refused = true
+				world.Label(lab + "/refused")
 				continue
+			}
+			if unordered[c] && len(cand) == 0 && m.pendingSite(k, r.site) {
+				// (follow-ups only; the second goroutine never registers a pending callback again.) Nothing of this
+				// step touched the key, so the same callback was registered for it all the time
+				world.Fail(t, "C14/duplicate-registration/accepted"+suffix, "the callback of site %d is already registered on feature %d for counter %d and not yet delivered; registering it again (%v) returned no error", r.site, r.feat, r.counter, r)
 			}
 			m.siteEver[keySite{k, r.site}] = true
 			m.counters[r.counter] = true
@@ -752,9 +1123,9 @@ func (m *machine) concurrent(t world.TB, specs []spec, cregs []*concReg) {
 				m.pending[k] = append(m.pending[k], r)
 				if len(cand) > 0 {
 					lo = 2*cand[len(cand)-1] + 1
-					world.Label("concurrent/registered-after-arrival")
+					world.Label(lab + "/registered-after-arrival")
 				} else {
-					world.Label("concurrent/no-matching-arrival")
+					world.Label(lab + "/no-matching-arrival")
 				}
 			case len(g) == 1 && contains(cand, g[0]):
 				r.want = append(r.want, dels[g[0]].serial)
@@ -766,7 +1137,7 @@ func (m *machine) concurrent(t world.TB, specs []spec, cregs []*concReg) {
 						lo = 2*j + 1
 					}
 				}
-				world.Label("concurrent/registered-before-arrival")
+				world.Label(lab + "/registered-before-arrival")
 				if len(cand) > 1 {
 					m.nontrivial = true // a repeated matching delivery raced with the registration
 				}
@@ -776,6 +1147,9 @@ func (m *machine) concurrent(t world.TB, specs []spec, cregs []*concReg) {
 				}
 				continue // several invocations or a non-candidate: check classifies the rest
 			}
+		}
+		if unordered[c] {
+			continue // made by a goroutine of its own: no order with the other registrations
 		}
 		if lo > cur {
 			cur, curBy = lo, r
@@ -878,13 +1252,60 @@ func (m *machine) drawSpec(t *rapid.T, label string) spec {
 			s.filter = "partial"
 		}
 	}
+	// how it reaches the feature and whether it references anything: through the SHIP reader a message without
+	// reference is dropped before the feature (see the package comment), so most of those are handed over directly
+	switch v := rapid.IntRange(0, 15).Draw(t, label+".reference"); {
+	case v < 2:
+		s.noRef, s.direct = true, true
+	case v == 2:
+		s.noRef = true
+	case v < 5:
+		s.direct = true
+	}
 	return s
+}
+
+// drawFollowUp decides whether the callback that is about to be registered (on feature feat, for
+// counter; 0 = a result callback) registers a further callback from inside its invocation, and which.
+func (m *machine) drawFollowUp(t *rapid.T, feat int, counter uint64) *followUp {
+	if rapid.IntRange(0, 3).Draw(t, "followUp") != 0 {
+		return nil
+	}
+	fu := &followUp{feat: feat, site: rapid.IntRange(0, len(sites)-1).Draw(t, "followUp.site")}
+	if rapid.IntRange(0, 3).Draw(t, "followUp.elsewhere") == 0 {
+		fu.feat = rapid.IntRange(0, len(m.feats)-1).Draw(t, "followUp.feature")
+	}
+	if rapid.IntRange(0, 2).Draw(t, "followUp.result") == 0 {
+		fu.result = true
+		have := 0
+		for _, r := range m.regs {
+			if r.result && r.feat == fu.feat {
+				have++
+			}
+		}
+		if have >= 4 {
+			return nil // enough result callbacks on that feature
+		}
+		return fu
+	}
+	switch v := rapid.IntRange(0, 2).Draw(t, "followUp.counter"); {
+	case v == 0: // the next request
+		fu.counter = counter + 1
+	case v == 1 && counter > 0: // the same request again
+		fu.counter = counter
+	default:
+		fu.counter = m.drawCounter(t, "followUp.other", 6)
+	}
+	if m.planned[keySite{key{fu.feat, fu.counter}, fu.site}] {
+		return nil // two follow-ups that may be registered at the same time must not be each other's duplicate
+	}
+	return fu
 }
 
 func (m *machine) anyPending(t *rapid.T, label string) *reg {
 	var all []*reg
 	for _, r := range m.regs {
-		if !r.result && !r.refused && !r.consumed && m.pendingSite(key{r.feat, r.counter}, r.site) {
+		if !r.result && !r.refused && !r.unreg && !r.consumed && m.pendingSite(key{r.feat, r.counter}, r.site) {
 			all = append(all, r)
 		}
 	}
@@ -912,7 +1333,7 @@ func (m *machine) actionRegister(t *rapid.T) {
 			counter = r.counter
 		}
 	}
-	m.register(t, feat, counter, site)
+	m.register(t, feat, counter, site, m.drawFollowUp(t, feat, counter))
 }
 
 func (m *machine) actionRegisterResult(t *rapid.T) {
@@ -920,7 +1341,7 @@ func (m *machine) actionRegisterResult(t *rapid.T) {
 	if len(m.resultCBs[feat]) >= 3 {
 		t.Skip("enough result callbacks on this feature")
 	}
-	m.registerResult(feat, rapid.IntRange(0, len(sites)-1).Draw(t, "site"))
+	m.registerResult(feat, rapid.IntRange(0, len(sites)-1).Draw(t, "site"), m.drawFollowUp(t, feat, 0))
 }
 
 func (m *machine) actionDeliver(t *rapid.T) {
@@ -941,7 +1362,7 @@ func (m *machine) actionRepeat(t *rapid.T) {
 	})
 	k := keys[rapid.IntRange(0, len(keys)-1).Draw(t, "key")]
 	s := m.drawSpec(t, "msg")
-	s.dst, s.ref = k.feat, k.counter
+	s.dst, s.ref, s.noRef = k.feat, k.counter, false
 	m.deliver(t, s)
 }
 
@@ -989,7 +1410,7 @@ func (m *machine) actionConcurrent(t *rapid.T) {
 			}
 		}
 		ks := keySite{key{feat, counter}, site}
-		if seen[ks] || m.pendingSite(ks.key, site) {
+		if seen[ks] || m.pendingSite(ks.key, site) || m.planned[ks] {
 			continue // would be a duplicate whose verdict depends on the interleaving
 		}
 		seen[ks] = true
@@ -1000,26 +1421,35 @@ func (m *machine) actionConcurrent(t *rapid.T) {
 }
 
 // flush serves every registration that is still open, so that "registered => invoked once a
-// matching message arrives" is judged for all of them.
+// matching message arrives" is judged for all of them - also for the follow-ups that the callbacks
+// served here register (those have no follow-ups of their own, so a second pass ends it).
 func (m *machine) flush(t *rapid.T) {
-	var keys []key
-	for k, rs := range m.pending {
-		if len(rs) > 0 {
-			keys = append(keys, k)
+	for pass := 0; pass < 3; pass++ {
+		var keys []key
+		for k, rs := range m.pending {
+			if len(rs) > 0 {
+				keys = append(keys, k)
+			}
 		}
-	}
-	sort.Slice(keys, func(i, j int) bool {
-		return keys[i].feat < keys[j].feat || (keys[i].feat == keys[j].feat && keys[i].counter < keys[j].counter)
-	})
-	for i, k := range keys {
-		s := m.drawSpec(t, fmt.Sprintf("flush%d", i))
-		s.dst, s.ref = k.feat, k.counter
-		if s.kind == kRejected {
-			s.kind = kReply
-			s.fn = functionsOf[m.defs[s.src].ft][0]
+		if len(keys) == 0 {
+			return
 		}
-		m.deliver(t, s)
-		world.Label("deliver/flush")
+		sort.Slice(keys, func(i, j int) bool {
+			return keys[i].feat < keys[j].feat || (keys[i].feat == keys[j].feat && keys[i].counter < keys[j].counter)
+		})
+		for i, k := range keys {
+			if len(m.pending[k]) == 0 {
+				continue
+			}
+			s := m.drawSpec(t, fmt.Sprintf("flush%d.%d", pass, i))
+			s.dst, s.ref, s.noRef = k.feat, k.counter, false
+			if s.kind == kRejected {
+				s.kind = kReply
+				s.fn = functionsOf[m.defs[s.src].ft][0]
+			}
+			m.deliver(t, s)
+			world.Label("deliver/flush")
+		}
 	}
 }
 
@@ -1056,19 +1486,20 @@ func TestCallbacks(t *testing.T) {
 
 // TestScenario replays the basic shapes deterministically (no rapid): a matching reply and a
 // matching result are served once, the repeat and the other feature are not, a duplicate is
-// refused, result callbacks see results only. It is also the harness's vacuity guard: if the
-// injected messages did not reach the callbacks at all, this test fails.
+// refused, result callbacks see results only and only those that reference a request, a callback
+// registered from inside a callback is served by the next reply. It is also the harness's vacuity
+// guard: if the injected messages did not reach the callbacks at all, this test fails.
 func TestScenario(t *testing.T) {
 	m := newMachine([]featDef{{model.FeatureTypeTypeMeasurement, model.RoleTypeClient}, {model.FeatureTypeTypeLoadControl, model.RoleTypeServer}})
 	defer m.w.Teardown()
 	world.Guard(func() {
 		reply := spec{peer: 1, src: 0, dst: 0, kind: kReply, fn: model.FunctionTypeMeasurementListData, ref: 1, items: 2, ack: true}
-		m.register(t, 0, 1, 0)
-		m.register(t, 0, 1, 1)
-		m.register(t, 0, 1, 0) // duplicate
-		m.register(t, 1, 1, 0) // same counter, other feature
-		m.registerResult(0, 2)
-		m.registerResult(1, 2)
+		m.register(t, 0, 1, 0, nil)
+		m.register(t, 0, 1, 1, nil)
+		m.register(t, 0, 1, 0, nil) // duplicate
+		m.register(t, 1, 1, 0, nil) // same counter, other feature
+		m.registerResult(0, 2, nil)
+		m.registerResult(1, 2, nil)
 		m.check(t)
 		rejected := reply
 		rejected.kind, rejected.fn = kRejected, model.FunctionTypeLoadControlLimitListData
@@ -1084,6 +1515,35 @@ func TestScenario(t *testing.T) {
 		m.check(t)
 		if n := len(m.log.snapshot()); n != 5 {
 			t.Fatalf("harness: expected 5 invocations in the fixed scenario (2 response + 1 response + 2 result callbacks), saw %d", n)
+		}
+		// results that reference nothing, through both entrances: nobody is invoked
+		m.deliver(t, spec{peer: 0, src: 1, dst: 1, kind: kResultE, errNo: 3, noRef: true, direct: true})
+		m.deliver(t, spec{peer: 1, src: 1, dst: 1, kind: kResult0, noRef: true, direct: true})
+		m.deliver(t, spec{peer: 1, src: 1, dst: 1, kind: kResult0, noRef: true})
+		m.check(t)
+		if n := len(m.log.snapshot()); n != 5 {
+			t.Fatalf("harness: expected no invocation for results without reference, saw %d more", n-5)
+		}
+		// the same shapes handed to HandleMessage directly, with a reference: served like the ones off the wire
+		m.register(t, 0, 2, 0, &followUp{feat: 0, counter: 3, site: 1}) // the callback of request 2 registers the one of request 3
+		direct := reply
+		direct.ref, direct.direct = 2, true
+		m.deliver(t, direct)
+		m.check(t)
+		if r := m.regs[len(m.regs)-1]; r.unreg || len(m.pending[key{0, 3}]) != 1 {
+			t.Fatalf("harness: the follow-up %v was not registered by its callback", r)
+		}
+		direct.ref, direct.direct = 3, false
+		m.deliver(t, direct)
+		m.check(t)
+		// a result callback that registers a response callback for the retry
+		m.registerResult(1, 3, &followUp{feat: 1, counter: 4, site: 3})
+		m.deliver(t, spec{peer: 0, src: 1, dst: 1, kind: kResultE, errNo: 7, ref: 9, direct: true}) // result callbacks #5 and the new one
+		m.check(t)
+		m.deliver(t, spec{peer: 1, src: 1, dst: 1, kind: kResult0, ref: 4}) // the retry's callback and both result callbacks
+		m.check(t)
+		if n := len(m.log.snapshot()); n != 12 {
+			t.Fatalf("harness: expected 12 invocations in the fixed scenario, saw %d", n)
 		}
 	})
 }
